@@ -153,9 +153,9 @@ Proof.
   rewrite Htoks.
   assert (Hlen : length l <= length (render l tail)).
   { clear -Hlex. induction Hlex as [|[ws x] r _ _ IH]; cbn [length render]; [lia|]. rewrite !app_length. destruct x; cbn [text_of length]; lia. }
-  destruct m as [|m]; [lia|]. cbn [repeat].
+  destruct m as [|m]; [pose proof margin_ge; lia|]. cbn [repeat].
   pose proof (fneed_le (map bdef sl)) as Hneed.
-  set (n := length (render l tail) + 3) in *.
+  set (n := length (render l tail) + margin) in *.
   replace (2 * n + 8) with (fneed (map bdef sl) + (2 * n + 8 - fneed (map bdef sl))) by lia.
   apply (fmt_structs (map bdef sl) _ [] false (repeat (NF []) m) tok0).
 Qed.
